@@ -521,6 +521,25 @@ fn c06_segment_pass_closing_s1_all_sent() {
 }
 }
 
+// After a retransmission rewind (snd_nxt = snd_una) every state that can still owe the peer bytes or a
+// FIN must be swept again: Closing and LastAck are the two that only occur after our FIN was queued.
+// @verif id=C06,C16 tier=quick role=segment_pass timeout=900 desc=Closing,send=1,mss=1,inflight=0(rewound),wnd=9
+crate::verif_proof! { unwind = 6;
+fn c06_segment_pass_closing_rewound_resends_data_and_fin() {
+    let (m, fin, unsent) = segment_pass::<1, 1, 0>(TcpState::Closing, 0xFFFF_FFFF, Some(9));
+    assert!(m == 2 && fin && unsent == 0);
+    kani::cover!(m == 2 && fin, "data byte and FIN re-emitted in Closing");
+}
+}
+// @verif id=C06,C16 tier=quick role=segment_pass timeout=900 desc=LastAck,send=1,mss=1,inflight=0(rewound),wnd=9
+crate::verif_proof! { unwind = 6;
+fn c06_segment_pass_lastack_rewound_resends_data_and_fin() {
+    let (m, fin, unsent) = segment_pass::<1, 1, 0>(TcpState::LastAck, 41, Some(9));
+    assert!(m == 2 && fin && unsent == 0);
+    kani::cover!(m == 2 && fin, "data byte and FIN re-emitted in LastAck");
+}
+}
+
 // ---------------------------------------------------------------------------------------------------
 // C16-S1: poll_send never queues beyond the send cap, accepts exactly the prefix that fits, parks
 // when full, and refuses on a closed write side / non-writable state.
@@ -793,6 +812,22 @@ fn c06_retx_exhaustion_surfaces_as_timed_out() {
     let (rewound, timed_out) = retx_step::<2>(TcpState::CloseWait, 77, 1, 2, 5, 3, 5);
     assert!(!rewound && timed_out);
     kani::cover!(timed_out, "timed out");
+}
+}
+// @verif id=C06 tier=quick role=check_retx timeout=600 desc=Established,buffered=2,LAST-attempt-of-the-budget(attempts=max-1)-still-rewinds
+crate::verif_proof! { unwind = 4;
+fn c06_retx_last_budgeted_attempt_is_still_sent() {
+    let (rewound, timed_out) = retx_step::<2>(TcpState::Established, 9, 2, 2, 4, 3, 5);
+    assert!(rewound && !timed_out, "retx_max retransmissions are sent before giving up");
+    kani::cover!(rewound, "last budgeted retransmission");
+}
+}
+// @verif id=C06 tier=thorough role=check_retx timeout=600 desc=LastAck,buffered=1,retx_max=2,attempts=1
+crate::verif_proof! { unwind = 4;
+fn c06_retx_small_budget_boundary() {
+    let (rewound, timed_out) = retx_step::<1>(TcpState::LastAck, 0xFFFF_FFFE, 2, 0, 1, 1, 2);
+    assert!(rewound && !timed_out);
+    kani::cover!(rewound, "second of two budgeted retransmissions");
 }
 }
 // @verif id=C06 tier=thorough role=check_retx timeout=600 desc=FinWait1,buffered=1,below-threshold
@@ -1142,7 +1177,10 @@ fn c13_syn_is_dropped_when_backlog_is_full() {
 /// listener + one child for remote `remote` built directly (what accept_syn leaves behind);
 /// `snd_una` of the child is symbolic, so the expected handshake ACK number is too.
 fn mk_listener_with_child(backlog: usize, state: TcpState) -> (Kernel, Fd, Fd, u32) {
-    let (mut k, lfd) = mk_listener(A, backlog);
+    mk_listener_with_child_on(A, backlog, state)
+}
+fn mk_listener_with_child_on(bind_ip: IpAddr, backlog: usize, state: TcpState) -> (Kernel, Fd, Fd, u32) {
+    let (mut k, lfd) = mk_listener(bind_ip, backlog);
     let key = BindKey { domain: Domain::Inet, ty: Type::Stream, local_addr: A, local_port: 80 };
     let mut st = Socket::new(Domain::Inet, Type::Stream);
     st.bound = Some(key.clone());
@@ -1223,6 +1261,67 @@ fn c13_accept_hands_out_each_connection_once() {
     kani::cover!(v.is_some(), "accepted");
     std::mem::forget(k);
     std::mem::forget(dup);
+}
+}
+
+/// Backlog accounting with one child already charged to the listener (still handshaking, or
+/// accept-ready): a SYN from a NEW peer creates a second child iff handshaking + accept-ready
+/// children < backlog; otherwise it is dropped without an answer and nothing changes. Listener shape
+/// (specific address / wildcard), backlog and the child's state are concrete per instance.
+fn backlog_step(wildcard: bool, backlog: usize, ready: bool) -> bool {
+    let bind_ip = if wildcard { IpAddr::V4(Ipv4Addr::UNSPECIFIED) } else { A };
+    let (mut k, lfd, child, _) = mk_listener_with_child_on(bind_ip, backlog, if ready { TcpState::Established } else { TcpState::SynReceived });
+    if ready {
+        k.sockets.get_mut(lfd).unwrap().listen.as_mut().unwrap().ready.push_back(child);
+    }
+    let seq: u32 = kani::any();
+    let (pkt, s) = syn_from(R2, seq, kani::any());
+    deliver(&mut k, &pkt, &s);
+    let n = k.sockets.iter().count();
+    let room = 1 < backlog;
+    if room {
+        assert!(n == 3, "room in the backlog: exactly one more child");
+        let c2 = k.sockets.find_connection(L, R2).unwrap();
+        assert!(c2 != child && c2 != lfd);
+        assert!(k.sockets.get(c2).unwrap().tcb.as_ref().unwrap().state == TcpState::SynReceived);
+        assert!(k.outbound.len() == 1 && tcp_of(k.outbound.back().unwrap()).flags.syn);
+    } else {
+        assert!(n == 2 && k.sockets.find_connection(L, R2).is_none(), "backlog exhausted by the existing child: no second child");
+        assert!(k.outbound.len() == 0, "a SYN beyond the backlog is dropped silently");
+    }
+    assert!(k.sockets.find_connection(L, R) == Some(child), "the existing child is untouched");
+    assert!(k.sockets.get(lfd).unwrap().listen.as_ref().unwrap().ready.len() == ready as usize);
+    std::mem::forget(k);
+    std::mem::forget(pkt);
+    std::mem::forget(s);
+    n == 3
+}
+// @verif id=C13 tier=quick role=backlog timeout=900 desc=listener=0.0.0.0:80,backlog=1,one-handshaking-child
+crate::verif_proof! { unwind = 8;
+fn c13_wildcard_listener_counts_handshaking_children() {
+    let created = backlog_step(true, 1, false);
+    kani::cover!(!created, "second SYN dropped: the handshaking child fills the backlog");
+}
+}
+// @verif id=C13 tier=quick role=backlog timeout=900 desc=listener=A:80,backlog=1,one-accept-ready-child
+crate::verif_proof! { unwind = 8;
+fn c13_accept_ready_child_fills_the_backlog() {
+    let created = backlog_step(false, 1, true);
+    kani::cover!(!created, "second SYN dropped: the accept queue fills the backlog");
+}
+}
+// @verif id=C13 tier=thorough role=backlog timeout=900 desc=listener=0.0.0.0:80,backlog=2,one-handshaking-child
+crate::verif_proof! { unwind = 8;
+fn c13_wildcard_listener_admits_up_to_its_backlog() {
+    let created = backlog_step(true, 2, false);
+    kani::cover!(created, "second child admitted");
+}
+}
+// @verif id=C13 tier=thorough role=backlog timeout=900 desc=listener=A:80,backlog=1,one-handshaking-child
+crate::verif_proof! { unwind = 8;
+fn c13_specific_listener_counts_handshaking_children() {
+    let created = backlog_step(false, 1, false);
+    kani::cover!(!created, "second SYN dropped");
 }
 }
 
